@@ -363,7 +363,37 @@ def unit_bounded_numeric(U):
                      "%d value pools x numeric_sort on/off" % len(pools), cases, fails, distinct=cases)
 
 
-UNITS = [("body", unit_body), ("introns", unit_introns), ("splice", unit_splice), ("bounded.numeric", unit_bounded_numeric)]
+def unit_bounded_after_delete(U):
+    """bounded history: create_introns / create_splice_sites, then delete() one exon (by id / by Feature / through a
+    generator), then the same calls again on the same FeatureDB object: the gaps follow the exons that are stored NOW"""
+    fails, cases = [], 0
+    for how in ("id", "feature", "generator"):
+        for strand in ("+", "-"):
+            cases += 1
+            text = "c\ts\tgene\t101\t900\t.\t%s\t.\tID=g\nc\ts\tmRNA\t101\t900\t.\t%s\t.\tID=t;Parent=g\n" % (strand, strand)
+            exons = [(101, 200), (400, 500), (800, 900)]
+            for i, (a, b) in enumerate(exons):
+                text += "c\ts\texon\t%d\t%d\t.\t%s\t.\tID=e%d;Parent=t\n" % (a, b, strand, i)
+            try:
+                db = gffutils.create_db(text, ":memory:", from_string=True)
+                first = sorted((i.start, i.end) for i in db.create_introns())
+                list(db.create_splice_sites())
+                victim = "e1" if how == "id" else (db["e1"] if how == "feature" else (f for f in [db["e1"]]))
+                db.delete(victim, make_backup=False)
+                second = sorted((i.start, i.end) for i in db.create_introns())
+                sites = sorted((s.start, s.end) for s in db.create_splice_sites())
+                exp1, exp2 = [(201, 399), (501, 799)], [(201, 799)]
+                exps = sorted([(201, 202), (798, 799)])
+                if first != exp1 or second != exp2 or sites != exps:
+                    fails.append({"case": {"delete": how, "strand": strand}, "expected": {"introns before": exp1, "introns after delete(e1)": exp2, "sites after": exps},
+                                  "observed": {"introns before": first, "introns after delete(e1)": second, "sites after": sites}})
+            except Exception as ex:
+                fails.append({"case": {"delete": how, "strand": strand}, "expected": "no exception", "observed": repr(ex)})
+    U.bounded_result("C15.bounded.after_delete", "create_introns / create_splice_sites after a delete() on the same object use the exons stored now",
+                     "3 forms of delete x 2 strands, one transcript with 3 exons", cases, fails, distinct=cases)
+
+
+UNITS = [("bounded.after_delete", unit_bounded_after_delete), ("body", unit_body), ("introns", unit_introns), ("splice", unit_splice), ("bounded.numeric", unit_bounded_numeric)]
 try:
     from standins import C15 as _S
     UNITS = UNITS + list(_S.UNITS)
